@@ -221,6 +221,14 @@ def _collect(draw, thorough):
         instrs = draw(gen.model(max_steps=3, allow_nonsym_lmi=True, allow_redeclare=True))["instrs"]
     else:
         instrs = draw(soup(max_len=28 if thorough else 20))
+    # LMIs are declared from nested lists or from an object array (both documented); the array may be reused afterwards
+    out = []
+    for ins in instrs:
+        if ins[0] == "lmi":
+            ins = (list(ins) + [False, None])[:5] if len(ins) < 5 else list(ins[:5])
+            ins.append(draw(st.sampled_from(["list", "list", "ndarray", "ndarray_reused"])))
+        out.append(ins)
+    instrs = out
     return {"kind": draw(st.sampled_from(["collect", "collect", "mosek"])), "instrs": instrs,
             "seed": draw(st.integers(0, 2 ** 31 - 1)), "verbose": draw(st.sampled_from([0, 0, 1]))}
 
@@ -520,6 +528,9 @@ def check_collect(case, ctx, backend):
     pidx = {id(p): i for i, p in enumerate(pts)}
     eidx = {id(e): i for i, e in enumerate(exs)}
     n, m = len(pts), len(exs)
+    for msg in env.altered_arguments:
+        ctx.fail("declaration-altered-its-argument", msg)
+        break
     # a declared LMI holds, entry by entry, the expressions the user wrote (also where (a,b) and (b,a) differ as written)
     for obj, mat in env.lmi_raw:
         stored = obj.matrix_of_expressions
@@ -530,7 +541,7 @@ def check_collect(case, ctx, backend):
             for b in range(len(mat)):
                 ent = mat[a][b]
                 want = sem.functional(ent) if isinstance(ent, Expression) else ({("1",): float(ent)} if ent != 0 else {})
-                if not sem.fun_equal(sem.functional(stored[a, b]), want):
+                if not isinstance(stored[a, b], Expression) or not sem.fun_equal(sem.functional(stored[a, b]), want):
                     ctx.fail("lmi-entry-differs-from-declared", "entry (%d,%d) of a declared %dx%d LMI is not the expression "
                              "the user wrote there%s" % (a, b, len(mat), len(mat),
                                                          " (the matrix is not symmetric as written)" if not (isinstance(mat[b][a], Expression) and mat[b][a] is ent) else ""))
